@@ -73,6 +73,8 @@ def gen_info(rng, enc=None, sharded=False):
     if enc == "jpeg":
         dt, C = "uint8", rng.choice([1, 3])
     scales = []
+    # scale keys: plain, nesting as prefixes ("1um" / "10um"), with a dot, with a sub-directory (unsharded only)
+    key_style = rng.choice(["s{i}", "1{z}um", "v1.{i}"] + ([] if sharded else ["lvl/{i}"]))
     for i in range(rng.choice([1, 1, 2])):
         size = [rng.randrange(1, 14) for _ in range(3)]
         if sharded:
@@ -80,7 +82,7 @@ def gen_info(rng, enc=None, sharded=False):
             css = [[c, c, c]]
         else:
             css = [[rng.choice([1, 2, 3, 4, 5, 8, 16]) for _ in range(3)] for _ in range(rng.choice([1, 1, 2]))]
-        sc = {"key": f"s{i}", "size": size, "chunk_sizes": css, "encoding": enc, "resolution": [1, 1, 1],
+        sc = {"key": key_style.format(i=i, z="0" * i), "size": size, "chunk_sizes": css, "encoding": enc, "resolution": [1, 1, 1],
               "voxel_offset": [0, 0, 0]}
         if enc == "compressed_segmentation":
             sc["compressed_segmentation_block_size"] = [rng.choice([1, 2, 3, 4, 8]) for _ in range(3)]
